@@ -119,7 +119,9 @@ fn hexs(s: &str) -> String { let mut o = String::from("x"); for b in s.bytes() {
 /// runs one assertion under catch_unwind and prints: `case <id> pass|fail <n pushes> (<line>.<col>.<line>.<col>|<node display hex>|<actual hex>|<expected hex or none>)*`
 fn run_case<F: FnOnce() + std::panic::UnwindSafe>(id: &str, f: F) {
     let _ = verif::take_pushes();
+    let _ = verif::take_spans();
     let r = std::panic::catch_unwind(f);
+    let spans = verif::take_spans();
     let pushes: Vec<_> = verif::take_pushes().into_iter().filter(|p| !p.probe).collect();
     let mut line = format!("case {} {} {}", id, if r.is_ok() { "pass" } else { "fail" }, pushes.len());
     for p in &pushes {
@@ -129,6 +131,7 @@ fn run_case<F: FnOnce() + std::panic::UnwindSafe>(id: &str, f: F) {
     if let Err(e) = &r {
         let msg = if let Some(s) = e.downcast_ref::<String>() { s.clone() } else if let Some(s) = e.downcast_ref::<&str>() { s.to_string() } else { "?".into() };
         line.push_str(&format!(" msg={}", hexs(&msg)));
+        line.push_str(&format!(" spans={}", spans.iter().map(|(s, e)| format!("{}.{}", s, e)).collect::<Vec<_>>().join(",")));
     }
     println!("{}", line);
 }
@@ -144,7 +147,11 @@ def parse_case_lines(stdout):
         cid, verdict, n = f[1], f[2], int(f[3])
         pushes = []
         msg = None
+        spans = None
         for x in f[4:]:
+            if x.startswith("spans="):
+                spans = [tuple(int(v) for v in y.split(".")) for y in x[6:].split(",") if y]
+                continue
             if x.startswith("msg="):
                 msg = vlib.unhx(x[4:]).decode("utf-8", "replace")
                 continue
@@ -152,5 +159,5 @@ def parse_case_lines(stdout):
             pushes.append({"loc": [int(v) for v in loc.split(".")], "node": vlib.unhx(disp).decode("utf-8", "replace"),
                            "actual": vlib.unhx(act).decode("utf-8", "replace"),
                            "expected": None if exp == "none" else vlib.unhx(exp).decode("utf-8", "replace")})
-        out[cid] = {"verdict": verdict, "pushes": pushes, "msg": msg}
+        out[cid] = {"verdict": verdict, "pushes": pushes, "msg": msg, "spans": spans}
     return out
